@@ -77,6 +77,24 @@ func (c *Ctx) add(rule, construct, pos, verdict, detail string) {
 }
 
 // Ok records a discharged obligation.
+// inlinedReportable: may a violation seen only on the inlined view be reported for this
+// (rule group, construct)? Keys of InlinedReports: "group", "group|construct", or
+// "group|*suffix" (any construct ending in suffix, e.g. one that starts with a function name).
+func (c *Ctx) inlinedReportable(group, construct string, wholeGroup bool) bool {
+	if wholeGroup && c.InlinedReports[group] {
+		return true
+	}
+	if c.InlinedReports[group+"|"+construct] {
+		return true
+	}
+	for k := range c.InlinedReports {
+		if strings.HasPrefix(k, group+"|*") && strings.HasSuffix(construct, strings.TrimPrefix(k, group+"|*")) {
+			return true
+		}
+	}
+	return false
+}
+
 func (c *Ctx) Ok(rule, construct, pos, detail string) {
 	c.add(rule, construct, pos, Discharged, detail)
 }
@@ -391,7 +409,7 @@ func (a *Ctx) CombineViews(b *Ctx) {
 				// the rule group decides everything on the inlined view and reports nothing there
 				o.Detail = "the rule group holds on the inlined view (as written: violation - " + o.Detail + ")"
 				o.Verdict = Discharged
-			case haveKey && o.Verdict == Undecided && bv == Violation && (os.Getenv("GMSL_INLINE_ADD") != "" || a.InlinedReports[group(o.Rule)+"|"+o.Construct]):
+			case haveKey && o.Verdict == Undecided && bv == Violation && (os.Getenv("GMSL_INLINE_ADD") != "" || a.inlinedReportable(group(o.Rule), o.Construct, false)):
 				for _, bo := range b.Obs {
 					if bo.Rule == k.rule && bo.Construct == k.construct && bo.Verdict == Violation {
 						o.Verdict, o.Detail, o.Pos = Violation, bo.Detail+" [inlined view]", bo.Pos
@@ -410,7 +428,7 @@ func (a *Ctx) CombineViews(b *Ctx) {
 			continue
 		}
 		o.Detail = o.Detail + " [inlined view]"
-		if o.Verdict == Violation && os.Getenv("GMSL_INLINE_ADD") == "" && !a.InlinedReports[group(o.Rule)] && !a.InlinedReports[group(o.Rule)+"|"+o.Construct] {
+		if o.Verdict == Violation && os.Getenv("GMSL_INLINE_ADD") == "" && !a.inlinedReportable(group(o.Rule), o.Construct, true) {
 			// the inlined view only ever rescues: a report needs the construct as written
 			o.Verdict = Undecided
 			o.Detail = "reported on the inlined view only: " + o.Detail
